@@ -49,7 +49,16 @@ type histObject struct {
 	fluent   string
 }
 
+// histNumericOnly restricts the generated values to ints and floats (for the numeric aggregates and Sort)
+var histNumericOnly bool
+
 func histValue(r interface{ Intn(int) int }, shared []any) any {
+	if histNumericOnly {
+		if r.Intn(3) == 0 {
+			return []float64{0.5, -2.5, 3, 1e16, 1}[r.Intn(5)]
+		}
+		return []int{0, 1, -1, 5, -7, 1 << 53, 12}[r.Intn(7)]
+	}
 	switch r.Intn(14) {
 	case 0:
 		return r.Intn(5) - 2
@@ -1096,6 +1105,7 @@ func histChecks(c *oracleCtx, prop string) {
 	}
 	for i := 0; i < nl; i++ {
 		seed := base + int64(i)
+		numeric := prop == "C18" && i%2 == 0
 		mk := func(vals ...any) List { return NewList(vals...) }
 		if prop == "C19" {
 			mk = func(vals ...any) List { return newDList(vals...) }
@@ -1103,7 +1113,9 @@ func histChecks(c *oracleCtx, prop string) {
 		var h *histList
 		idSeed := fmt.Sprintf("HL:%d", seed)
 		c.check(idSeed, true, func() string {
+			histNumericOnly = numeric
 			h = buildHistList(seed, mk)
+			histNumericOnly = false
 			if m := histListChecks(prop, h); m != "" {
 				return m + " [history: " + strings.Join(h.trace, ",") + "]"
 			}
